@@ -285,6 +285,61 @@ def _decide(ex, p, cond):
 
 # --------------------------------------------------------------------------- (3) drivers
 
+def _replay_driver(scheme, ham, direction):
+    """Concrete confirmation on the compiled build: harmonic oscillator, event g = q1 - 1/2, every start side (below / above / on the
+    plane / never reaching it) through the named driver; the reported hit must be the analytic first admissible crossing."""
+    return """
+from numba.typed import List
+from hiten.algorithms.dynamics.hamiltonian import create_hamiltonian_system
+from hiten.algorithms.dynamics.rhs import create_rhs_system
+from hiten.algorithms.integrators import AdaptiveRK, RungeKutta
+from hiten.algorithms.integrators.symplectic import N_SYMPLECTIC_DOF, N_VARS_POLY, P_POLY_INDICES, Q_POLY_INDICES, _ExtendedSymplectic
+from hiten.algorithms.polynomial.base import _create_encode_dict_from_clmo, _encode_multiindex, _init_index_tables
+from hiten.algorithms.types.configs import EventConfig
+SCHEME, HAM, DIRECTION = %r, %r, %r
+C, T_END = 0.5, 7.0
+def ham_system():
+    psi, clmo = _init_index_tables(2); enc = _create_encode_dict_from_clmo(clmo)
+    H = [np.zeros(psi[N_VARS_POLY, d], dtype=np.complex128) for d in range(3)]
+    for var in (Q_POLY_INDICES[0], P_POLY_INDICES[0]):
+        k = np.zeros(N_VARS_POLY, dtype=np.int64); k[var] = 2
+        H[2][_encode_multiindex(k, 2, enc)] = 0.5
+    Hn = List()
+    for a in H: Hn.append(a.copy())
+    return create_hamiltonian_system(H_blocks=Hn, degree=2, psi_table=psi, clmo_table=clmo, encode_dict_list=enc, n_dof=N_SYMPLECTIC_DOF, name="osc")
+def gen_system():
+    def rhs(t, y):
+        out = np.zeros(6); out[0] = y[3]; out[3] = -y[0]; return out
+    return create_rhs_system(rhs, dim=6, name="osc generic")
+def g(t, y):
+    return y[0] - 0.5
+def first_crossing(q0, p0, direction):
+    A = np.hypot(q0, p0)
+    if A <= C: return None
+    phi = np.arctan2(p0, q0); alpha = np.arccos(C / A); cands = []
+    for k in range(-2, 4):
+        cands.append((phi + alpha + 2 * np.pi * k, -1)); cands.append((phi - alpha + 2 * np.pi * k, +1))
+    for t, d in sorted(c for c in cands if 1e-9 < c[0] <= T_END):
+        if direction == 0 or d == direction: return t
+    return None
+system = ham_system() if HAM else gen_system()
+grid = np.linspace(0.0, T_END, 1401); span = np.array([0.0, T_END])
+if SCHEME == "fixed": integ, tv, tol = RungeKutta(order=4), grid, 1e-6
+elif SCHEME == "rk45": integ, tv, tol = AdaptiveRK(order=5, rtol=1e-10, atol=1e-12), span, 1e-6
+elif SCHEME == "dop853": integ, tv, tol = AdaptiveRK(order=8, rtol=1e-10, atol=1e-12), span, 1e-6
+else: integ, tv, tol = _ExtendedSymplectic(order=6, c_omega_heuristic=20.0), grid, 1e-5
+bad = {}
+for label, q0, p0 in (("below", 0.0, 1.0), ("above", 1.0, 0.0), ("on_plane", 0.5, 0.8), ("on_plane_other_way", 0.5, -0.8), ("never", 0.3, 0.0)):
+    y0 = np.array([q0, 0.0, 0.0, p0, 0.0, 0.0])
+    sol = integ.integrate(system, y0.copy(), tv, event_fn=g, event_cfg=EventConfig(direction=DIRECTION, terminal=True))
+    t_hit = float(sol.times[-1]); t_ref = first_crossing(q0, p0, DIRECTION); t_ref = T_END if t_ref is None else t_ref
+    if abs(t_hit - t_ref) > tol:
+        bad[label] = "start %%s the plane, direction %%d: driver stops at t=%%.6f, first admissible crossing is at t=%%.6f" %% (label, DIRECTION, t_hit, t_ref)
+_verdict(bool(bad), **bad)
+""" % (scheme, bool(ham), direction)
+
+
+
 def event_driver(chk, scheme, ham, direction, max_steps, budget):
     import hiten.algorithms.integrators.rk as rk
     dim = 1
@@ -342,12 +397,19 @@ def event_driver(chk, scheme, ham, direction, max_steps, budget):
         s = Or(up, dn) if direction == 0 else (up if direction > 0 else dn)
         return Or(s, gn == 0)
     nh = 0
+    nfail = [0]
+
+    def fail(base, what, env=None):
+        # one replayed counterexample per driver/direction; further failing paths of the same driver are only counted
+        nfail[0] += 1
+        if nfail[0] == 1:
+            chk.fail('C11/(3)driver/%s' % tag, '%s [%s]' % (what, base), _replay_driver(scheme, ham, direction), env)
     for n, p in enumerate(paths):
         base = 'C11/(3)driver/%s/path %d' % (tag, n)
         if isinstance(p.exc, explore.PathAbort):
             continue
         if p.exc is not None:
-            chk.fail(base, 'raised %r' % (p.exc,), None)
+            fail(base, 'raised %r' % (p.exc,))
             continue
         status, r, snap = p.value
         steps, gc, refs = snap['steps'], snap['gcalls'], snap['refines']
@@ -402,7 +464,7 @@ def event_driver(chk, scheme, ham, direction, max_steps, budget):
         finally:
             _a.__exit__()
         if struct:
-            chk.fail(base, '; '.join(struct), None)
+            fail(base, '; '.join(struct))
             continue
         v, m, kk = ex.prove_all(p, goals)
         if v == 'unsat':
@@ -410,11 +472,11 @@ def event_driver(chk, scheme, ham, direction, max_steps, budget):
                 status, len(acc), ', HIT' if hit else ''), sample={'status': status, 'accepted': len(acc), 'hit': hit} if n in (1, 4) else None)
         elif v == 'sat':
             env = model_to_env(m)
-            chk.fail(base, 'event-driver contract goal %d fails at %s' % (kk, fmt_env(env)), None, env)
+            fail(base, 'event-driver contract goal %d fails at %s' % (kk, fmt_env(env)), env)
         else:
             chk.unknown(base, v)
     st = chk.absorb(ex)
-    chk.note('driver %s: %d paths, %d with a hit' % (tag, st['paths'], nh))
+    chk.note('driver %s: %d paths, %d with a hit%s' % (tag, st['paths'], nh, ', %d paths violate the contract' % nfail[0] if nfail[0] else ''))
 
 
 def symplectic_event_driver(chk, direction):
@@ -483,7 +545,7 @@ def symplectic_event_driver(chk, direction):
         if struct and v == 'unsat':
             chk.ok(base, 'hit=%s after %d steps: first step whose end values satisfy the crossing rule; refinement on that step; else last state at the end of the grid' % (bool(hit), len(g_) - 1))
         else:
-            chk.fail(base, 'symplectic event driver contract fails (struct=%s, solver=%s)' % (struct, v), None)
+            chk.fail(base, 'symplectic event driver contract fails (struct=%s, solver=%s)' % (struct, v), _replay_driver('symplectic', True, direction))
     chk.absorb(ex)
 
 
